@@ -52,6 +52,22 @@ func checkC04(rep *Report, rng *Rng, tier string) {
 		g := GenCfg{FileBacked: r.Chance(2, 3), NColls: 1 + r.Intn(3), NOps: 30 + r.Intn(60), Structural: true, CollMgmt: r.Chance(1, 2), PrioMode: r.Intn(4), Visits: r.Chance(1, 2), NKeys: 6 + r.Intn(20)}
 		ops := GenHistory(r, g)
 		ops = weaveSnapshotsEx(r, ops, 1+r.Intn(4), g.FileBacked)
+		if g.FileBacked && r.Chance(1, 2) {
+			// Collection.Write() on the original.  Written-but-unflushed records are discarded by a re-open, and a
+			// new Store on the same file would write over locations an open snapshot of the OLD store still uses
+			// (two writers on one file): such histories have no re-open.
+			var keep []Op
+			for _, o := range ops {
+				if !(o.K == "reopen" && o.H == 0) {
+					keep = append(keep, o)
+				}
+			}
+			ops = keep
+			for j := 0; j < 2; j++ {
+				at := 1 + r.Intn(len(ops)-1)
+				ops = append(ops[:at:at], append([]Op{{K: "cwrite", Name: ops[0].Name}}, ops[at:]...)...)
+			}
+		}
 		if r.Chance(1, 4) {
 			// close the original somewhere; the snapshots must stay readable
 			at := len(ops)/2 + r.Intn(len(ops)/2)
@@ -246,6 +262,16 @@ func checkC10(rep *Report, rng *Rng, tier string) {
 		ops := GenHistory(r, g)
 		if !rev {
 			ops = weaveSnapshotsEx(r, ops, 1+r.Intn(4), false)
+		}
+		// in-flight visits whose visitors mutate the collection being visited (ascending and descending)
+		for j := 0; j < 3; j++ {
+			at := len(ops)/3 + r.Intn(len(ops)-len(ops)/3)
+			k := []string{"vmut", "vmutd", "vmutd", "vall"}[r.Intn(4)]
+			tgt := []byte{}
+			if k != "vmut" {
+				tgt = []byte{0xff, 0xff, 0xff}
+			}
+			ops = append(ops[:at:at], append([]Op{{K: k, Name: ops[0].Name, Key: tgt, WV: true, N: -1}}, ops[at:]...)...)
 		}
 		d := CfgDesc{Check: "C10", FileBacked: g.FileBacked, DumpEvery: true, Post: "churn"}
 		return d.RunCfg(), ops, d.String()
@@ -466,6 +492,9 @@ func checkC19(rep *Report, rng *Rng, tier string) {
 					stop = r.Intn(6)
 				}
 				out = append(out, Op{K: k, Name: o.Name, Key: key, WV: r.Chance(1, 2), N: stop})
+			}
+			if r.Chance(1, 40) {
+				out = append(out, Op{K: "copyfail"})
 			}
 		}
 		d := CfgDesc{Check: "C19", FileBacked: true, CmpCB: g.CmpMode == 1, Post: "lazyreads"}
